@@ -26,6 +26,26 @@ PROPS = {
         "assumptions": CODEC_ASSUME + ["strings.ToLower is a parameter of the model (arbitrary function in every theorem); the comparator applies the real one",
                                        "Go map semantics (unique keys, later insertion wins) and sort.Strings (bytewise order) are modelled, not verified"],
     },
+    "C01": {
+        "kind": "codec", "modules": ["OAP.Props.C01"], "gens": ["C01"],
+        "rule": "packets over version {1,2} x type {request,response,push} x verify x metadata absent/present (v2) x body lengths "
+                "{0,1,2,255,256,1000,1023,1024,1025,65535,65536} (thorough: also 2^24-1, 2^24 and beyond) x thresholds {0,1,len-1,len,len+1,1024,-1}, "
+                "near-budget metadata with verify, unknown types, and out-of-domain packets (cmd>255, signature != 16 bytes, gzip preset: model/code "
+                "agreement only). Each packet goes through the real Pack, then the real UnpackBytes and streaming Unpack; the round-trip relation of the "
+                "property, pack_error_iff and the gzip flag rule are evaluated on the real code, and every Pack/UnpackBytes result is compared with the "
+                "Lean model (compressed bytes and the standard reader's verdict are passed as the gzip oracle's values). Distinct = distinct operation lines.",
+        "assumptions": CODEC_ASSUME + ["compress/gzip is an oracle (GzOracle): its soundness (reading what Compress produced yields the body) is checked with the standard reader on every compressed case",
+                                       "the in-domain conditions of the property: cmd <= 255, 16-byte signature when verify, gzip flag initially clear, metadata map valid and within budget"],
+    },
+    "C02": {
+        "kind": "codec", "modules": ["OAP.Props.C02"], "gens": ["C02"],
+        "rule": "encoder direction: generated packets (body lengths incl. >=256 and >=65536, metadata blocks >=256 bytes, extreme field values) through "
+                "the real Pack, compared byte for byte with an independent spec-derived encoder in Go AND with Spec.encode evaluated by the Lean driver; "
+                "decoder direction: spec frames over ALL 16 type nibbles x verify x gzip x 4 reserve values x field extremes x (valid | malformed) gzip "
+                "bodies and metadata blocks, decoded by the real UnpackBytes and compared field for field with the layout's values and with the model; "
+                "strict prefixes of valid frames must be rejected. Distinct = distinct operation lines.",
+        "assumptions": CODEC_ASSUME + ["OAP/Spec/Layout.lean is written from the layout quoted in the property (the online protocol document is not reachable offline)"],
+    },
 }
 
 
